@@ -10,6 +10,7 @@
 From Coq Require Import List Arith ZArith.
 Require Import JV.Model.ParallelCore JV.Proofs.ParallelInv1 JV.Proofs.ParallelInv4 JV.Proofs.ParallelMisc.
 Require Import JV.Model.AutoBatch JV.Proofs.AutoBatch.
+Require Import JV.Model.ParallelSync JV.Proofs.SyncFrame JV.Proofs.SyncInv JV.Proofs.SyncThm.
 Import ListNotations.
 
 (* every task taken from the input is in exactly one submitted batch or one look-ahead batch, in input
@@ -60,6 +61,36 @@ Theorem C01_predispatch_zero_refuted :
   snd r = [[]; []; []; [Stop]] /\ delivered (fst r) = [] /\ N (fst r) = 3 /\ exception (fst r) = false.
 Proof. exact predispatch_zero_returns_nothing. Qed.
 Print Assumptions C01_predispatch_zero_refuted.
+
+(* ---- backends that do not retrieve results in their completion callback (Model/ParallelSync.v:
+   supports_retrieve_callback = False, the default of ParallelBackendBase, i.e. third-party backends).
+   `sreach` = every state reachable by any sequence of calls, caller dispatches, completion callbacks
+   (any order, any time, stale ones included) and retrieval outcomes. ---- *)
+Theorem C01_sync_exactly_once : forall s, sreach s -> ifail (base s) = None ->
+  concat (submitted (base s)) ++ concat (ready (base s)) = seq 0 (taken (base s)) /\ taken (base s) <= N (base s).
+Proof. exact sync_partition. Qed.
+Print Assumptions C01_sync_exactly_once.
+
+Theorem C01_sync_results_prefix : forall s, sreach s -> ifail (base s) = None -> exception (base s) = false ->
+  exists rest, delivered (base s) ++ rest = seq 0 (taken (base s)) /\ taken (base s) <= N (base s).
+Proof. exact sync_results_prefix. Qed.
+Print Assumptions C01_sync_results_prefix.
+
+(* whenever such a call returns a list, it is exactly [run 0; ...; run (N-1)] *)
+Theorem C01_sync_returns_sequential_results : forall s e l, sreach s -> wf_sev e ->
+  In (SReturned l) (snd (sstep s e)) -> ifail (base (fst (sstep s e))) = None ->
+  l = seq 0 (N (base (fst (sstep s e)))).
+Proof. exact sync_returns_sequential_results. Qed.
+Print Assumptions C01_sync_returns_sequential_results.
+
+Example C01_sync_example :
+  let r := srun sinit sdemo_events in
+  sreach (fst r) /\ last (snd r) [] = [SReturned [0; 1; 2; 3; 4]] /\ ifail (base (fst r)) = None.
+Proof.
+  split; [apply sreach_run; [constructor | exact sdemo_wf]|].
+  destruct sdemo_run as (A & _ & _ & D). auto.
+Qed.
+Print Assumptions C01_sync_example.
 
 (* non-vacuity: a reachable state satisfying every hypothesis of C01_results_complete *)
 Example C01_example :
